@@ -35,7 +35,7 @@ def r20_1_2(ctx):
         stores = [e for e in st.trace if isinstance(e, Store) and isinstance(e.recv, Obj) and e.recv.name == "self"]
         warns = [e for e in st.trace if isinstance(e, Call) and e.name.endswith("warn")]
         accepted = bool([s for s in stores if s.attr == "default_work_amount"])
-        sv = [v for k, v in st.heap.items() if k[1] == "status" and k[0].startswith("new")]
+        sv = [v for k, v in st.heap.items() if k[1] == "status" and k[0] != "self" and isinstance(v, EnumSet)]
         members = set(sv[0].members) if sv and isinstance(sv[0], EnumSet) else set(ctx.repo.enums["BaseProjectStatus"])
         if not conds:
             continue
@@ -80,14 +80,22 @@ def r20_1_2(ctx):
             ctx.violation(construct(f, "duration-before-absence-removal"), dwa.loc, "with remove_absence_time_list=True the duration is taken before (or without) removing the absence steps of the loaded project")
         if not flag and rm:
             ctx.violation(construct(f, "absence-removal-unconditional"), rm[0].loc, "absence steps of the loaded project are removed although remove_absence_time_list=False")
+        for r0 in rm:
+            if not (isinstance(r0.recv, Obj) and r0.recv.name.startswith("new")):
+                ctx.violation(construct(f, "mutates-shared-project"), r0.loc,
+                              "remove_absence_time_list() edits the loaded project in place, but that project is not an object created in this call (cached / shared): "
+                              "a later configuration from the same file sees the already shortened result")
         v = dwa.value
-        if not (isinstance(v, (Poly, Unk)) and ":BaseProject.time" in repr(v)):
+        projs = [k[0] for k in st.heap if k[1] == "status" and k[0] != "self"]
+        pname = projs[0] if projs else ":BaseProject"
+        if not (isinstance(v, (Poly, Unk)) and (pname + ".time") in repr(v).replace("~", "#").replace(pname.replace("~", "#"), pname)):
             ctx.violation(construct(f, "duration-source"), dwa.loc, f"default_work_amount is set from `{v!r}`, not from the loaded project's time")
         u = stores.get("unit_timedelta")
-        if u is None or ":BaseProject.unit_timedelta" not in repr(u.value):
+        if u is None or ".unit_timedelta" not in repr(u.value) or "self.unit_timedelta" in repr(u.value):
             ctx.violation(construct(f, "unit-source"), (u or dwa).loc, "unit_timedelta of the sub-project task is not taken from the loaded project")
         rcall = [e for e in st.trace if isinstance(e, Call) and e.name.endswith("read_simple_json")]
-        if not rcall or st.trace.index(rcall[0]) > st.trace.index(dwa):
+        created_here = pname.startswith("new")
+        if created_here and (not rcall or st.trace.index(rcall[0]) > st.trace.index(dwa)):
             ctx.violation(construct(f, "not-loaded"), dwa.loc, "the duration is taken without loading the saved project first")
     ctx.require(acc >= 1 or any(True for _ in ctx.findings), "no accepting path found")
     ctx.end()
